@@ -134,6 +134,10 @@ class Crazyflie():
         self._answer_patterns = {}
 
         self._send_lock = Lock()
+        # Thread that is inside send_packet() and a link error it got reported
+        # by the driver while sending
+        self._send_lock_owner = None
+        self._deferred_link_error = None
 
         self.connected_ts = None
 
@@ -210,6 +214,12 @@ class Crazyflie():
 
     def _link_error_cb(self, errmsg):
         """Called from the link driver when there's an error"""
+        if self._send_lock_owner is current_thread():
+            # Reported by the driver from within send_packet(): the callbacks
+            # join threads and take locks, so they have to wait until the send
+            # lock has been released
+            self._deferred_link_error = errmsg
+            return
         logger.warning('Got link error callback [%s] in state [%s]',
                        errmsg, self.state)
         if (self.link is not None):
@@ -359,6 +369,20 @@ class Crazyflie():
             raise Exception('Data part of packet is too large')
 
         self._send_lock.acquire()
+        self._send_lock_owner = current_thread()
+        try:
+            self._send_packet_locked(pk, expected_reply, resend, timeout,
+                                     retry_timer)
+        finally:
+            errmsg = self._deferred_link_error
+            self._deferred_link_error = None
+            self._send_lock_owner = None
+            self._send_lock.release()
+        if errmsg is not None:
+            self._link_error_cb(errmsg)
+
+    def _send_packet_locked(self, pk, expected_reply, resend, timeout,
+                            retry_timer):
         # A link error can set self.link to None (and a reconnect can replace
         # it) at any time, look at it only once
         link = self.link
@@ -392,7 +416,6 @@ class Crazyflie():
                 new_timer.start()
             link.send_packet(pk)
             self.packet_sent.call(pk)
-        self._send_lock.release()
 
     def is_called_by_incoming_handler_thread(self):
         return current_thread() == self.incoming
